@@ -18,7 +18,8 @@ def bases():
     for k, (sh, car) in enumerate([(('struct', [('named', ['i', 'm', 'p'])]), 'PartialEq'),
                                    (('struct', [('tuple', ['m', 'i'])]), 'Eq'),
                                    (('enum', [('tuple', ['i', 'p', 'm']), ('named', ['m', 'i']), ('unit', [])]), 'PartialEq'),
-                                   (('enum', [('named', ['i']), ('tuple', ['m'])]), 'Eq')]):
+                                   (('enum', [('named', ['i']), ('tuple', ['m'])]), 'Eq'),
+                                   (('struct', [('named', ['f', 'i', 'm'])]), 'PartialEq'), (('enum', [('tuple', ['f', 'p']), ('named', ['i', 'f'])]), 'Eq')]):
         def mk(modname, cfgid, sp, sh=sh, car=car):
             t = p_c02.build(sh, car, car == 'Eq')
             return p_c02.emit(t, modname, cfgid, sp=sp)
@@ -28,14 +29,15 @@ def bases():
     I = p_c03
     for k, (fl, r, mode) in enumerate([(['p', 'm', 'i'], [7, -3, None], 'both_ord'), (['m', 'p', 'p'], [0, None, -3], 'pord'),
                                        (['p', 'p', 'm'], [I.IMAX, 0, I.IMIN + 1], 'both_pord'), (['i', 'm'], [None, 7], 'ordonly'),
-                                       (['m', 'i', 'p'], [I.IMIN, None, 0], 'both_ord'), (['p', 'm'], [-3, I.IMIN], 'pord')]):
+                                       (['m', 'i', 'p'], [I.IMIN, None, 0], 'both_ord'), (['p', 'm'], [-3, I.IMIN], 'pord'),
+                                       (['f', 'm', 'i'], [7, -3, None], 'both_pord'), (['f', 'f'], [None, None], 'pord')]):
         def mk(modname, cfgid, sp, fl=fl, r=r, mode=mode, k=k):
             shape, ranks = p_c03.place(fl, r, k + 1)
             return p_c03.emit(modname, cfgid, shape, ranks, mode, sp=sp)
         out.append((f'C03/{"".join(fl)}/{p_c03.rid(r)}/{mode}', mk))
 
     # C05
-    for sh in [('struct', [('tuple', ['i', 'm', 'w'])]), ('enum', [('named', ['m', 'i']), ('tuple', ['i', 'p']), ('unit', [])])]:
+    for sh in [('struct', [('tuple', ['i', 'm', 'w'])]), ('enum', [('named', ['m', 'i']), ('tuple', ['i', 'p']), ('unit', [])]), ('struct', [('named', ['f', 'i', 'f'])])]:
         def mk(modname, cfgid, sp, sh=sh):
             return p_c05.emit(modname, cfgid, sh, False, sp=sp)
         out.append((f'C05/{S.shape_id(sh)}', mk))
@@ -47,7 +49,9 @@ def bases():
              D.Spec('struct', None, [dict(kind='named', vname=None, nf=None, fields=['b', 'p'])], False) if False else
              D.Spec('struct', None, [dict(kind='named', vname=None, nf=None, fields=['p', 'm'])], False),
              D.Spec('enum', True, [dict(kind='named', vname='Rv', nf=None, fields=['r', 'i']), dict(kind='tuple', vname=False, nf=True, fields=['p', 'b']), dict(kind='unit', vname='Rv', nf=None, fields=[])]),
-             D.Spec('enum', 'En', [dict(kind='tuple', vname=None, nf=None, fields=['m', 'i']), dict(kind='named', vname=False, nf=False, fields=['p'])])]
+             D.Spec('enum', 'En', [dict(kind='tuple', vname=None, nf=None, fields=['m', 'i']), dict(kind='named', vname=False, nf=False, fields=['p'])]),
+             D.Spec('struct', None, [dict(kind='named', vname=None, nf=None, fields=['f', 'i', 'm'])]),
+             D.Spec('enum', True, [dict(kind='tuple', vname=None, nf=True, fields=['f', 'p']), dict(kind='named', vname=None, nf=None, fields=['i', 'f'])])]
     for spc in specs:
         def mk(modname, cfgid, sp, spc=spc):
             import copy
